@@ -151,6 +151,13 @@ class Ctx:
         os.makedirs(EVID, exist_ok=True)
         with open(os.path.join(EVID, "%s.json" % self.prop), "w") as fh:
             json.dump(ev, fh, indent=1, default=str)
+        try:
+            self._print(lines, instances, distinct, n_new, n_known)
+        except BrokenPipeError:
+            pass
+        return 1 if n_new else 0
+
+    def _print(self, lines, instances, distinct, n_new, n_known):
         for l in lines:
             print(l)
         print("%s %s: %d rule instances (%d distinct), %d violations, %d known findings, %.1fs" % (
